@@ -140,6 +140,18 @@ func newEngine(ctx context.Context, p uciParams) (*engine.Engine, []uci.Option) 
 	switch p.Engine {
 	case "plain":
 		return engine.New(ctx, "plain", "verif", search.AlphaBeta{Eval: search.Leaf{Eval: eval.Material{}}}), nil
+	case "plainbook":
+		// the plain engine with a generic opening book whose lines contain en passant captures
+		bk, err := engine.NewBook([]engine.Line{
+			{"e2e4", "a7a6", "e4e5", "d7d5", "e5d6"},
+			{"e2e4", "a7a6", "e4e5", "f7f5", "e5f6"},
+			{"d2d4", "h7h6", "d4d5", "e7e5", "d5e6"},
+			{"d2d4", "h7h6", "d4d5", "c7c5", "d5c6"},
+		})
+		if err != nil {
+			panic(err)
+		}
+		return engine.New(ctx, "plainbook", "verif", search.AlphaBeta{Eval: search.Leaf{Eval: eval.Material{}}}), []uci.Option{uci.UseBook(bk, p.Seed)}
 	case "morlock":
 		e, _, o := engines.Morlock(ctx, p.Seed, p.Flags)
 		return e, o
